@@ -7,7 +7,7 @@
 // @reach delete.second_read
 // @funcs StorageBinList::Read; StorageBinList::SetAll; StorageBinList::TransferAll; StorageBinListItem::Augment; CParser::get_option
 // @bounds a history of two DELETE blocks read into the same instance-wide selection object with the reset the engine performs between simulations (SetAll(false)); each block is one of {-cell a, -cell a b, -solution a, -solution a-b, -exchange a, -cell a then -kinetics b} with a, b in 1..3 (case split over both blocks; quick: 3 forms x 4 number pairs for the first block, 6 forms x 6 pairs for the second; thorough: 6 x 9 for both); text is parsed by the real CParser
-// @oracle after the second block the selection names exactly what the second block names: -cell n selects number n of every kind, -<kind> n only that kind, ranges a-b every number in between; nothing named only by the first block is still selected (DELETE removes exactly the named entries)
+// @oracle after the second block the selection names exactly what the second block names: -cell n selects number n of every one of the 11 kinds, -<kind> n only that kind, the reset between simulations clears every kind, ranges a-b every number in between; nothing named only by the first block is still selected (DELETE removes exactly the named entries)
 // @stubs PHRQ_io::error_msg / warning_msg (counted)
 // @outside the map erase loop of delete_entities (straight-line code over the selection), RUN_CELLS/COPY which use the same reader class
 #include "Phreeqc.h"
@@ -81,7 +81,17 @@ extern "C" void vfh_C14_delete_selection(void)
 		vf_check("delete.surface_selection", has(sel.Get_surface(), n) == w2.any_other[n]);
 		vf_check("delete.gas_phase_selection", has(sel.Get_gas_phase(), n) == w2.any_other[n]);
 		vf_check("delete.pp_assemblage_selection", has(sel.Get_pp_assemblage(), n) == w2.any_other[n]);
+		/* -cell n names number n of every kind of reactant */
+		vf_check("delete.every_other_kind_selected_with_the_cell", has(sel.Get_ss_assemblage(), n) == w2.any_other[n] && has(sel.Get_mix(), n) == w2.any_other[n]
+			&& has(sel.Get_reaction(), n) == w2.any_other[n] && has(sel.Get_temperature(), n) == w2.any_other[n] && has(sel.Get_pressure(), n) == w2.any_other[n]);
 	}
+	/* the reset between simulations reaches every kind: a kind named only by the first block is not selected any more */
+	StorageBinList probe(&io);
+	probe.Get_pressure().Augment(2); probe.Get_temperature().Augment(2); probe.Get_mix().Augment(2); probe.Get_reaction().Augment(2); probe.Get_ss_assemblage().Augment(2);
+	probe.SetAll(false);
+	vf_check("delete.reset_reaches_every_kind", !probe.Get_pressure().Get_defined() && !probe.Get_temperature().Get_defined() && !probe.Get_mix().Get_defined()
+		&& !probe.Get_reaction().Get_defined() && !probe.Get_ss_assemblage().Get_defined()
+		&& probe.Get_pressure().Get_numbers().empty() && probe.Get_temperature().Get_numbers().empty());
 	bool any_sol = w2.sol[1] || w2.sol[2] || w2.sol[3];
 	vf_check("delete.solution_defined_iff_named", sel.Get_solution().Get_defined() == any_sol);
 }
